@@ -6,7 +6,7 @@ MANIFEST = dict(
          "by cell with the textbook sum in ring mode "
          "(double := Z/256, exact arithmetic) for every inner dimension 0..8 (all residues mod 4 twice) and small outer dimensions; transpose, "
          "involution (also on shapes above tile thresholds, 13x14..17x13), trace and sorting (permutation of rows + ordered key) in exact IEEE mode; column/row averages, sample variance, "
-         "standard deviation, rms, norm against their definitions and covariance symmetry/diagonal in ring mode with cells 0..3 (which cells, counts, denominators). Bounded shapes, all values symbolic.",
+         "standard deviation, rms, norm against their definitions and covariance symmetry/diagonal on exact IEEE instances (integer cells 0..3, counts 1/2/4: which cells, counts, denominators, independent of the evaluation order). Bounded shapes, all values symbolic.",
     note="Ring mode drops rounding and the NaN/Inf/MISSING filter branches; identity over Z/256 implies identity over the reals for these degree-2 "
          "polynomials with small coefficients (DESIGN 3.4, stated lemma). Rounding, the missing-value branches of the statistics, covariance positive semi-definiteness and off-diagonal values are not decided.",
     technique="CBMC on the real kernels compiled in ring mode (Z/256) and IEEE mode; postconditions as harness assertions over all cells; bounded shapes")
@@ -58,13 +58,13 @@ def jobs(tier):
     for (m, n) in ([(2, 2), (1, 3)] if tier == "quick" else [(2, 2), (1, 3), (3, 1), (2, 3)]):
         J.extend(R("tensor_contractions", "h_tensor_contractions", {"VC_M": m, "VC_N": n}, "tensor-vector / vector-tensor / tensor-matrix contractions == their index definitions, added to the previous output",
                    fns=["TransposedTensorDVectorProduct", "DvectorTensorDotProduct", "TensorMatrixDotProduct"], cells=[(k, i) for k in range(2) for i in range(max(m, n))]))
-    for (m, n) in ([(2, 2), (3, 1)] if tier == "quick" else [(2, 2), (3, 1), (3, 2), (2, 3), (4, 1)]):
-        J.append(Job("col_statistics@M=%d,N=%d" % (m, n), "C11/kernels.c", entry="h_col_statistics", srcs=S, mode="ring", kind="bounded",
+    for (m, n) in ([(2, 2), (4, 1)] if tier == "quick" else [(2, 2), (4, 1), (2, 1), (2, 4), (4, 2)]):   # row/column counts 1, 2, 4: exact instances
+        J.append(Job("col_statistics@M=%d,N=%d" % (m, n), "C11/kernels.c", entry="h_col_statistics", srcs=S, mode="ieee", kind="bounded",
                      defines={"VC_M": m, "VC_N": n, "VC_STATS": None}, unwind=max(m, n) + 3, timeout=900, stubs=["stubs/usqrt_stub.c"],
                      functions=["MatrixColAverage", "MatrixRowAverage", "MatrixColVar", "MatrixColSDEV", "MatrixColRMS", "MatrixCovariance", "Matrixnorm"],
-                     bound="concrete shape %dx%d; cells symbolic in 0..3 (ring mode without wrap-around)" % (m, n),
+                     bound="concrete shape %dx%d; cells symbolic in {0,1,2,3} (IEEE, exact instances)" % (m, n),
                      clause="column/row averages, sample variance, standard deviation, rms, norm == definitions; covariance symmetric with the variances on its diagonal "
-                            "(which cells, counts, denominators n and n-1; sqrt uninterpreted; rounding not decided)"))
+                            "(which cells, counts, denominators n and n-1; sqrt uninterpreted; exact instances, so independent of the evaluation order; rounding on general data not decided)"))
     for m in ([1, 2, 3, 4] if tier == "quick" else [1, 2, 3, 4, 5, 6]):   # 17 rows (tried, for a seeded size-dependent sort) did not finish in 300 s
         J.extend(R("sort", "h_sort", {"VC_M": m}, "MatrixSort / MatrixReverseSort: output rows are a permutation of the input rows ordered by the key column", mode="ieee",
                    fns=["MatrixSort", "MatrixReverseSort"]))
